@@ -756,6 +756,30 @@ func ruleTableZero(c *Ctx, rule string, fns []*ssa.Function) {
 			}
 		}
 		if table == nil {
+			// rows addressed through views table[i*c:(i+1)*c]: the table is what the views are cut from
+			for _, b := range fn.Blocks {
+				for _, ins := range b.Instrs {
+					sl, ok := ins.(*ssa.Slice)
+					if !ok || table != nil || sl.Low == nil {
+						continue
+					}
+					if mul, ok := sl.Low.(*ssa.BinOp); ok && mul.Op == token.MUL {
+						if _, isSl := sl.X.Type().Underlying().(*types.Slice); isSl && isIntegral(sl.X.Type().Underlying().(*types.Slice).Elem()) {
+							written := false
+							for _, r := range *sl.Referrers() {
+								if ia, ok := r.(*ssa.IndexAddr); ok && addrWritten(ia) {
+									written = true
+								}
+							}
+							if written {
+								table = sl.X
+							}
+						}
+					}
+				}
+			}
+		}
+		if table == nil {
 			c.und(rule, key, fn.Pos(), "no table[i*c+j] access found")
 			continue
 		}
@@ -1019,9 +1043,9 @@ func rulePreloadBound(c *Ctx, rule string) {
 		c.und(rule, key, fn.Pos(), "the callback call was not found")
 		return
 	}
-	P, a, ok := linearIn(call.Call.Args[1])
+	P, aForm, ok := phiPlusForm(call.Call.Args[1], &linEnv{noInline: true})
 	if !ok {
-		c.und(rule, key, call.Pos(), "the reported position is not a loop counter plus a constant")
+		c.und(rule, key, call.Pos(), "the reported position is not a loop counter plus an offset")
 		return
 	}
 	var init ssa.Value
@@ -1038,7 +1062,7 @@ func rulePreloadBound(c *Ctx, rule string) {
 	env := &linEnv{noInline: true}
 	start := fn.Params[2].Name()
 	// goal: start - (init + a) <= 0
-	g := linAtom(start).add(linOf(init, env), -1).add(linConst(a), -1)
+	g := linAtom(start).add(linOf(init, env), -1).add(aForm, -1)
 	var facts []lin
 	for _, bf := range append(branchesAt(initPred), factsOnEdgeOnly(initPred, P.Block())...) {
 		if f, ok := strictForm(bf.cond, bf.edge, env); ok {
@@ -1371,6 +1395,12 @@ func ruleAddBeforeGo(c *Ctx, rule string) {
 				if ci, ok := ins.(ssa.CallInstruction); ok {
 					if isWG(ci.Common(), "Done") {
 						return true
+					}
+					// a private function of the package that the goroutine calls or defers (defer p.exit())
+					if _, isGo := ins.(*ssa.Go); !isGo {
+						if sc := ci.Common().StaticCallee(); sc != nil && sc.Pkg == sp && sc.Object() != nil && !sc.Object().Exported() && callsDone(sc, seen) {
+							return true
+						}
 					}
 					if mc, ok := ci.Common().Value.(*ssa.MakeClosure); ok {
 						if g, ok := mc.Fn.(*ssa.Function); ok && callsDone(g, seen) {
